@@ -18,7 +18,7 @@ for LN in $(seq 0 $((LANES-1))); do
       cd $W && git checkout -q -- . && git clean -fdq bitbybit/src && git apply /verif/seeded/$b/patch.diff || { echo "$b patch-failed"; continue; }
       line="$b"
       for c in $checks; do
-        (cd /verif && VERIF_SEED=$SEED BBV_NO_SHRINK=1 BBV_NO_EVIDENCE=1 BBV_REPLAY_DIR=$B/replays$LN/$b BBV_WORK_DIR=$B/work$LN BBV_MACRO_PATH=$W/bitbybit BBV_TARGET_DIR=$B/t$LN /verif/target/engine/release/bbv check $c --tier quick > $B/last$LN.out 2>&1)
+        (cd /verif && VERIF_SEED=$SEED BBV_NO_SHRINK=1 BBV_NO_EVIDENCE=1 BBV_REPLAY_DIR=$B/replays$LN/$b BBV_WORK_DIR=$B/work$LN BBV_MACRO_PATH=$W/bitbybit BBV_TARGET_DIR=$B/t$LN ${BBV_BIN:-/verif/target/engine/release/bbv} check $c --tier quick > $B/last$LN.out 2>&1)
         line="$line $c=$?"
       done
       echo "$line"
